@@ -5,4 +5,5 @@ META = {
             'solver-chosen layer combinations observed through behaviour. The relation ranges over every token boundary and every combination of directive and setting.',
     'note': 'Part A is reference-free (real engine vs itself on the canonical layout). Trusted: vt/refpeg.py lexical rules for part B; CrossHair/z3 models validated per path '
             'natively. Known finding F11 (compile-time settings never reach the model) identified by signature.',
+    'technique': 'symbolic execution (CrossHair/z3) with symbolic whitespace/comment runs (metamorphic) and symbolic text against the reference evaluator; solver-chosen configuration-layer selectors observed through behaviour',
 }
